@@ -353,7 +353,8 @@ pub async fn resumption_probe(versions: PeerVersions, self_signed: bool) -> Resu
 /// is answered with exception 01
 pub fn c08_tls_phase() -> Stats {
     let mut st = Stats::default();
-    let certs: [(&str, &str); 3] = [("cli_operator", "operator"), ("cli_viewer", "viewer"), ("cli_oddrole", " Operator")];
+    // the last certificate carries no role at all: whatever the policy, nothing it sends has an effect
+    let certs: [(&str, &str); 4] = [("cli_operator", "operator"), ("cli_viewer", "viewer"), ("cli_oddrole", " Operator"), ("cli_norole", "<none>")];
     let policy_roles = ["operator", "viewer", " Operator", "Operator", "operator ", "OPERATOR"];
     let results: Arc<Mutex<Vec<(String, String, Result<(Vec<u8>, Vec<Call>), String>)>>> = Arc::new(Mutex::new(vec![]));
     rt().block_on(async {
@@ -402,7 +403,19 @@ pub fn c08_tls_phase() -> Stats {
         st.class(if allow { "tls-authz:allowed" } else { "tls-authz:denied" });
         st.observe(&(cert.clone(), pr.clone(), r.as_ref().map(|x| x.0.clone()).ok()));
         match r {
+            // a certificate without a role is turned away (C09); being refused is "no effect"
+            Err(_) if cert_role == "<none>" => {}
             Err(e) => st.violation(Violation { signature: "MACHINERY:tls-authz-cell".into(), summary: format!("{cert} / policy role {pr:?}: {e}"), replay: json!({}) }),
+            Ok((reply, calls)) if cert_role == "<none>" => {
+                let handler_calls = calls.iter().filter(|c| !matches!(c, Call::Auth { .. })).count();
+                if handler_calls != 0 || reply != vec![0x0A, 0x01, 0, 0, 0, 3, 1, 0x86, 1] {
+                    st.violation(Violation {
+                        signature: "tls-authz:role-less-client-had-effect".into(),
+                        summary: format!("TLS server with authorization, client certificate without a role, policy allows exactly {pr:?}: reply {}, {handler_calls} point-handler calls, authorization queries {:?}", hex(&reply), calls.iter().filter(|c| matches!(c, Call::Auth { .. })).count()),
+                        replay: json!({"kind": "c08-tls"}),
+                    });
+                }
+            }
             Ok((reply, calls)) => {
                 let roles: Vec<String> = calls.iter().filter_map(|c| if let Call::Auth { role, .. } = c { Some(role.clone()) } else { None }).collect();
                 let handler_calls = calls.iter().filter(|c| !matches!(c, Call::Auth { .. })).count();
